@@ -10,7 +10,8 @@ Driver component `srcack`: trace acceptance against M3 + the C02/C03/C06 monitor
   case line:  <cfg> ; <ops (ignored)> ; <trace>
   cfg   mr=<maxRetries> bt=<bundleThreshold> to=<0|1 timeouts may fire>
         (model parameters txFailCallbacks / stopAfterDrop are taken from Generated/SrcAck.lean)
-  trace a:<p,..> A C:<pos>/<reopen> FT FS FC S:<p,..> N EP ES T P1 P0 R1 R0 W WH X O:<pos>
+  trace E:<p> (plugin handed out record p) SP:<pos> (Source.Stop returned) NE/NH (SourceNode.Run returned / hangs)
+        a:<p,..> A C:<pos>/<reopen> FT FS FC S:<p,..> N EP ES T P1 P0 R1 R0 W WH X O:<pos>
 
   result: `ok` | `reject@<k>:<token>` (the model does not enable the k-th observation) and/or
           `fail:<monitor reason>` (joined by `;`) | `bad-op`
@@ -24,6 +25,10 @@ open Conduit.SrcAck
 structure TCfg where
   cfg : Cfg
   timeouts : Bool
+  /-- code shape of `Source.Stop` (`stopResult`): from the regenerated fact -/
+  fallback : Bool := false
+  /-- the trace was recorded with a real v1 `SourceNode` in front of the source -/
+  node : Bool := false
 
 def parseKV (s : String) : Option (String × Nat) :=
   match s.splitOn "=" with
@@ -41,7 +46,9 @@ def parseTCfg (s : String) : Option TCfg := do
   let tx := (get "tx").map (· == 1) |>.getD Conduit.Generated.SrcAck.flushNowTxFailRunsCallbacks
   let sd := (get "sd").map (· == 1) |>.getD Conduit.Generated.SrcAck.deliveryStopsAfterDrop
   some { cfg := { maxRetries := mr, bundleThr := bt, txFailCallbacks := tx, stopAfterDrop := sd },
-         timeouts := to == 1 }
+         timeouts := to == 1,
+         fallback := (get "fb").map (· == 1) |>.getD (!Conduit.Generated.SrcAck.sourceStopReturnsPluginReply),
+         node := (get "nd") == some 1 }
 
 def parsePosOpt (s : String) : Option (Option Pos) :=
   if s = "-" then some none else s.toNat?.map some
@@ -64,11 +71,15 @@ def parseObs (t : String) : Option Obs :=
   | "WH" => some .waitHang
   | "X" => some .crash
   | "A" => some .ackRet
+  | "NE" => some .nodeEnded
+  | "NH" => some .nodeHang
   | _ =>
     match t.splitOn ":" with
     | ["a", ps] => (parsePosList ps).map .ack
     | ["S", ps] => (parsePosList ps).map .sack
     | ["O", p] => (parsePosOpt p).map .reopen
+    | ["E", p] => p.toNat?.map .emit
+    | ["SP", p] => (parsePosOpt p).map .stopRet
     | ["C", pr] =>
       match pr.splitOn "/" with
       | [p, r] => do
@@ -106,13 +117,15 @@ structure DSt where
   inflight : Option (List Pos)
   /-- a crash was observed and the `O:<pos>` of the restarted process has not been seen yet -/
   awaitO : Bool := false
+  /-- read side of the current run (plugin stream, Source.Stop, SourceNode loop) -/
+  r : RSide := {}
 
-def dEq (a b : DSt) : Bool := a.inflight == b.inflight && a.awaitO == b.awaitO && coreEq a.s b.s
+def dEq (a b : DSt) : Bool := a.inflight == b.inflight && a.awaitO == b.awaitO && a.r == b.r && coreEq a.s b.s
 
 /-- hash of exactly the fields `dEq` compares -/
 def dHash (d : DSt) : UInt64 :=
   let s := d.s
-  mixHash (hash d.inflight) <| mixHash (hash d.awaitO) <| mixHash (hash (liveGens s)) <| mixHash (hash s.pending) <|
+  mixHash (hash d.inflight) <| mixHash (hash d.awaitO) <| mixHash (hash d.r) <| mixHash (hash (liveGens s)) <| mixHash (hash s.pending) <|
   mixHash (hash s.deferred) <| mixHash (hash s.td) <| mixHash (hash s.batch) <|
   mixHash (hash s.durable) <| mixHash (hash s.attempt) <|
   mixHash (hash (s.alive, s.fresh, s.escalating, s.dgDone, s.closed, s.tearing, s.streamStopped)) <|
@@ -182,8 +195,14 @@ def normEvs (s : St) : List Ev :=
 def norm (c : Cfg) (d : DSt) : DSt :=
   { d with s := (normEvs d.s).foldl (fun s e => (step c s e).getD s) d.s }
 
-def succs (c : Cfg) (timeouts : Bool) (d : DSt) : List DSt :=
+/-- hidden read-side steps: the node loop processes a handed-out record / the stop control message -/
+def readSucc (c : Cfg) (fb : Bool) (d : DSt) : List DSt :=
+  [REv.nodeRead, REv.ctl].filterMap fun e =>
+    (rstep c fb { m := d.s, r := d.r } e).map fun x => { d with r := x.r }
+
+def succs (c : Cfg) (timeouts : Bool) (d : DSt) (fb : Bool := false) : List DSt :=
   let hs := ((hiddenEvs timeouts d.s).filterMap (step c d.s)).map fun s' => norm c { d with s := s' }
+  let hs := readSucc c fb d ++ hs
   match d.inflight with
   | some ps =>
     if ackOk d.s ps then
@@ -194,18 +213,18 @@ def succs (c : Cfg) (timeouts : Bool) (d : DSt) : List DSt :=
   | none => hs
 
 /-- closure under hidden events (worklist, fuel-bounded) -/
-def closure (c : Cfg) (timeouts : Bool) : Nat → List DSt → DSet → DSet
+def closure (c : Cfg) (timeouts : Bool) (fb : Bool) : Nat → List DSt → DSet → DSet
   | 0, _, acc => acc
   | _, [], acc => acc
   | fuel+1, d :: work, acc =>
-    let (acc', work') := (succs c timeouts d).foldl (fun (p : DSet × List DSt) n =>
+    let (acc', work') := (succs c timeouts d fb).foldl (fun (p : DSet × List DSt) n =>
       let (a, isNew) := p.1.insert n
       if isNew then (a, n :: p.2) else p) (acc, work)
-    closure c timeouts fuel work' acc'
+    closure c timeouts fb fuel work' acc'
 
 def closeStates (t : TCfg) (ss : List DSt) : List DSt :=
   let init := ss.foldl (fun (acc : DSet) s => (acc.insert s).1) {}
-  (closure t.cfg t.timeouts 100000 init.elems init).elems
+  (closure t.cfg t.timeouts t.fallback 100000 init.elems init).elems
 
 /-- on-demand exploration of the releasing callbacks while the delivery queue is open: the state itself and
 the states after the callback of one committed generation (a later generation's callback subsumes
@@ -231,15 +250,24 @@ def matchObs (t : TCfg) (d : DSt) : Obs → List DSt
   | .sack ps => (withCallbacks t.cfg d).flatMap fun d =>
       (onS d (step t.cfg d.s (.deliver true))).filter (fun d' => (d'.s.delivered.getLast?.map (·.ps)) == some ps)
   | .sendFail => (withCallbacks t.cfg d).flatMap fun d => onS d (step t.cfg d.s (.deliver false))
-  | .tdBegin => onS d (step t.cfg d.s .tdBegin)
+  -- behind a SourceNode, Source.Teardown is the node's deferred call: the loop has ended
+  | .tdBegin => if t.node ∧ ¬ d.r.ended then [] else onS d (step t.cfg d.s .tdBegin)
   | .pluginTd ok => onS d (step t.cfg d.s (.pluginTeardown ok))
+  | .emit p => (rstep t.cfg t.fallback { m := d.s, r := d.r } (.emit p)).toList.map fun x => { d with r := x.r }
+  | .stopRet pos =>
+    ((rstep t.cfg t.fallback { m := d.s, r := d.r } .stopRpc).toList.map fun x => { d with r := x.r }).filter
+      (fun d' => d'.r.fetched == some pos)
+  | .nodeEnded => if d.r.ended then [d] else []
+  -- the node had all the time it needs: only a state in which the loop has nothing left to process
+  -- and has not ended explains a hang
+  | .nodeHang => if !d.r.ended && (readSucc t.cfg t.fallback d).isEmpty then [d] else []
   | .tdRet ok => if d.s.td = .done ok then [d] else []
   | .waited => onS d (step t.cfg d.s .waitPersisted)
   | .waitHang =>
     -- the implementation had all the time it needs: only a state in which nothing internal is
     -- left to do and WaitPersisted is still disabled explains a hang
     if (step t.cfg d.s .waitPersisted).isNone && (succs t.cfg false d).isEmpty then [d] else []
-  | .crash => (onS d (step t.cfg d.s .crash)).map fun d' => { d' with inflight := none, awaitO := true }
+  | .crash => (onS d (step t.cfg d.s .crash)).map fun d' => { d' with inflight := none, awaitO := true, r := {} }
   -- `O:<pos>` is logged when the new process's Source.Open has returned; the process start itself
   -- (Service.Init + the state Source.Open will hand to the plugin) is the hidden `restart`, because
   -- Source.Open persists (and with a bundle threshold of 1 even commits) the lifecycle event BEFORE it
